@@ -5,6 +5,7 @@ import (
 
 	"verif/harness/codec"
 	"verif/harness/gen"
+	"verif/harness/mon"
 	"verif/harness/run"
 	"verif/harness/val"
 )
@@ -58,6 +59,39 @@ func roundTrip(c *run.C, cd *codec.Codec, o codec.JSONOpts, s val.Stream) {
 	}
 	c.Observe("roundtrips_"+cd.Name, 1)
 	c.Observe("events_parsed", len(m.Events))
+	if d := val.Equal(want, vs[0], val.Mode(cd.Name)); d != "" {
+		return
+	}
+	// the same bytes through ONE parser that lives as long as the worker
+	// process and has parsed every earlier case's output (entry points Parse,
+	// ParseString and Write + end of input alternating): the value must not
+	// depend on what the instance read before
+	lm := mon.NewMonitor()
+	var lerr error
+	how := ""
+	if !c.Guard(cd.Name+".long-lived-parser", func() { how, lerr = parseLongLived(cd, buf, lm, c.R) }) {
+		longLived[cd.Name] = nil
+		return
+	}
+	prev := longLivedPrev[cd.Name]
+	if lerr != nil {
+		longLived[cd.Name] = nil
+		c.Violationf("parse-error", cd.Name+":long-lived-parse-own-output", "%s parser that has parsed other documents before rejects its own encoder's output (%s): %v\nbytes=%s\nprevious document=%s", cd.Name, how, lerr, hexs(buf), hexs(prev))
+		return
+	}
+	lvs, err := lm.Events.Values()
+	if err != nil || len(lvs) != 1 {
+		longLived[cd.Name] = nil
+		c.Violationf("mismatch", cd.Name+":long-lived-not-one-value", "%s: a parser that has parsed other documents before yields %d values (%v) for one (%s)\nbytes=%s\nprevious document=%s\nevents=%s", cd.Name, len(lvs), err, how, hexs(buf), hexs(prev), lm.Events)
+		return
+	}
+	if d := val.Equal(want, lvs[0], val.Mode(cd.Name)); d != "" {
+		longLived[cd.Name] = nil
+		c.Violationf("mismatch", cd.Name+":long-lived-value", "%s round trip through a parser that has parsed other documents before changed the value (%s): %s\nbytes=%s\nprevious document=%s\nstream=%s\nevents=%s", cd.Name, how, d, hexs(buf), hexs(prev), s, lm.Events)
+		return
+	}
+	longLivedPrev[cd.Name] = append([]byte{}, buf...)
+	c.Observe("long_lived_parser_roundtrips", 1)
 }
 
 func c01Tree(c *run.C) {
